@@ -26,7 +26,7 @@
 /* exported by lda.c (used by the bindings) but missing from lda.h */
 void LDAError(matrix *mx, matrix *my, LDAMODEL *lda, dvector *sens, dvector *spec, dvector *ppv, dvector *npv, dvector *acc);
 
-static long ncases(int tier) { return tier ? 120000 : 6000; }
+static long ncases(int tier) { return tier ? 120000 : 15000; }
 
 typedef struct {
   size_t n, p, K;
